@@ -20,6 +20,9 @@ var c19MapMissExempt = map[string]string{
 	"lang.createProcess:GoFunctions[name[:4]]": "dominating guard restricts name to \"pipe\" or \"test\" (both 4 letters, both builtins registered by DefineFunction)",
 }
 
+// reviewed exceptions for R19f (functions that intentionally return holding a lock), one symbol each
+var c19LockBalanceExempt = map[string]string{}
+
 func runC19(c *Ctx) {
 	c.Load("./...")
 	pkgs := c.MurexPkgs()
@@ -106,6 +109,14 @@ func runC19(c *Ctx) {
 	c.Rule("R19d", "every slice index / bound derived from a user-typed number is proven within range on every path (E5; same scope as C16)")
 	n := c.checkIndexBounds("R19d", c16Pkgs, []string{"isValidElementIndex"})
 	c.MinCount("R19d", "user-derived index sites", n, 8)
+
+	c.Rule("R19f", "no hang by a leaked lock (whole module): every function releases each sync mutex it locked on every path to an exit, or defers the unlock")
+	var allRel []string
+	for _, pk := range pkgs {
+		allRel = append(allRel, relPkg(pk.PkgPath))
+	}
+	nbal := c.runLockBalance("R19f", allRel, c19LockBalanceExempt)
+	c.MinCount("R19f", "functions that take a lock", nbal, 150)
 
 	c.Rule("R19e", "panics are reported, not fatal, on the interpreter's own goroutines: executeProcess and Fork.Execute start with `defer crash.Handler()`; crash.Handler recovers")
 	for _, f := range [][3]string{{"lang", "", "executeProcess"}, {"lang", "Fork", "Execute"}} {
